@@ -17,6 +17,7 @@ RULE = ("cases = (mode, a, b) pairs: near pairs from clusters around one "
         "(p+d)-p == d; non-trivial = operands differ in spelling and the "
         "difference needs a borrow or crosses a day/year boundary per the "
         "reference; distinct by (mode, a-fields, b-fields)")
+RUN_REPO_SUITE = True   # thorough tier: repo tests under these monitors
 DECIDING = ["sub.post", "identity.neg", "identity.addback", "identity.addsub"]
 MIN_EVALS = {"sub.post": 5000, "identity.addback": 1500,
              "identity.addsub": 800}
@@ -27,22 +28,16 @@ ASSUMPTIONS = [
 ]
 
 
-def classify_recursion(kind, case, detail):
-    return kind == "sub.raised" and detail.get("exc") == "RecursionError" \
-        and detail.get("float_equal") is True
-
-
-CLASSIFIERS = {"c04_float_equal_mutual_gt_recursion": classify_recursion}
-FINDING_EXAMPLES = {
-    "c04_float_equal_mutual_gt_recursion": {
-        "op": "pair", "mode": "366day",
-        "a": {"year": 7059, "week_of_year": 49, "day_of_week": 6,
-              "hour_of_day": 3, "hour_of_day_decimal": 0.9830555555555556,
-              "time_zone_hour": 99, "time_zone_minute": 59},
-        "b": {"year": 7059, "week_of_year": 49, "day_of_week": 2,
-              "hour_of_day": 0, "hour_of_day_decimal": 0.9997222222222222,
-              "time_zone_hour": 1, "time_zone_minute": 0}},
-}
+# regression case of a repaired defect (known_findings.txt, fixed: C04): two
+# decimal-hour points at one instant used to recurse until RecursionError
+REGRESSION_CASES = [{
+    "op": "pair", "mode": "366day",
+    "a": {"year": 7059, "week_of_year": 49, "day_of_week": 6,
+          "hour_of_day": 3, "hour_of_day_decimal": 0.9830555555555556,
+          "time_zone_hour": 99, "time_zone_minute": 59},
+    "b": {"year": 7059, "week_of_year": 49, "day_of_week": 2,
+          "hour_of_day": 0, "hour_of_day_decimal": 0.9997222222222222,
+          "time_zone_hour": 1, "time_zone_minute": 0}}]
 
 
 def install(ctx, repo, probes):
@@ -205,6 +200,9 @@ DELTAS = (0, 1, -1, 59, 60, -61, 3599, 3600, -3601, 86399, 86400, -86401,
 
 def workload(ctx, repo):
     rng = ctx.rng
+    for case in REGRESSION_CASES:
+        ctx.case = case
+        run_case(ctx, repo, case)
     n = 24000 if ctx.tier == "quick" else 60000
     for k in range(n):
         mode = rng.choice(R.MODES) if k % 2 else "gregorian"
